@@ -155,7 +155,10 @@ class Plan:
             uns = "unsafe " if (self.trait_unsafe and not shadow) or (m.unsafe and not shadow) else ""
             if "unsafe" in m.patch and not shadow:
                 uns = "unsafe " if m.patch["unsafe"] else ""
-            head = f"{uns}impl{generics} {tname}{ta} for {pr(named(self_ty, names))}{wh}"
+            st = pr(named(self_ty, names))
+            if m.patch.get("paren_self") and not shadow:
+                st = "(" + st + ")"     # a syntactic twin of the header: same type, another ImplGroupId
+            head = f"{uns}impl{generics} {tname}{ta} for {st}{wh}"
         else:
             head = f"impl{generics} {pr(named(self_ty, names))}{wh}"
         if shadow or not with_items:
@@ -1290,3 +1293,15 @@ def _unify(a, b, sa, sb):
 
 def _rows_unify(r1, r2):
     return all(_unify(a, b, {}, {}) for a, b in zip(r1, r2))
+
+
+def add_header_twins(plan, rng, prob=0.15):
+    """with probability `prob` write the self type of one block of a multi-member family in parentheses: the two
+    spellings are different impl-group ids that generalise each other (trait mode only)"""
+    if plan.mode != "trait" or rng.random() >= prob:
+        return False
+    cands = [m for f in plan.families if len(f.members) >= 2 for m in f.members]
+    if not cands:
+        return False
+    rng.choice(cands).patch["paren_self"] = True
+    return True
